@@ -1733,6 +1733,8 @@ int QSexact_solver (mpq_QSdata * p_mpq,
 		switch (*status)
 		{
 		case QS_LP_OPTIMAL:
+			/* a basis kept from a previous precision and not re-used is released */
+			mpq_QSfree_basis (basis);
 			basis = mpf_QSget_basis (p_mpf);
 			x_mpf = mpf_EGlpNumAllocArray (p_mpf->qslp->ncols);
 			y_mpf = mpf_EGlpNumAllocArray (p_mpf->qslp->nrows);
@@ -1805,6 +1807,7 @@ int QSexact_solver (mpq_QSdata * p_mpq,
 				if (qsx_trace_cb) qsx_trace_cb (8, (QS_EXACT_MAX_ITER - it), 0);
 #endif
 				MESSAGE (msg_lvl, "Retesting solution in exact arithmetic");
+				mpq_QSfree_basis (basis);
 				basis = mpf_QSget_basis (p_mpf);
 				EGcallD(QSexact_basis_status (p_mpq, status, basis, msg_lvl, &simplexalgo));
 #ifdef QSX_VERIF
